@@ -196,3 +196,10 @@ func VerifNewRequestTimeoutError(c *RetryClient, parent context.Context) (contex
 
 // VerifClone exposes Message.clone.
 func VerifClone(m *Message) *Message { return m.clone() }
+
+// VerifStopped reports whether Disconnect has been called on the RetryClient.
+func (c *RetryClient) VerifStopped() bool {
+	c.mu.RLock()
+	defer c.mu.RUnlock()
+	return c.stopped
+}
